@@ -1,6 +1,10 @@
 # Text fields of MANIFEST.json per claimed property.
 NOT_BUILT_REASON = {}
 META = {
+ "C19": {
+  "technique": "explicit-state BFS over update histories (kind/size/deadline-changing overwrites, renames, drops; depth 3, thorough 4) on the real server; in every reached state counters, BOUNDS, COUNT shortcuts and every access path are compared with a recomputation from the objects SCAN+GET return, plus an in-package audit of the four indexes and counters",
+  "text": "Every history of the alphabet up to the depth bound is executed; expectations are recomputed from the server's own retrievable objects, so the check decides exactly the stated agreement (STATS/SERVER/BOUNDS/COUNT/access paths vs retrievable data) for all those histories, including a pair of points closer than float32 resolution and empty geometries.",
+  "note": "Trusted: geojson.Parse/NumPoints/Rect of the geometry library as the recomputation oracle; in_memory_size is checked in-package against the sum of object weights and outside only for SERVER = sum of STATS; num_points of a BOUNDS rectangle may be 2 or 5."},
  "C01": {
   "technique": "explicit-state BFS over command sequences (full alphabet, depth 3; thorough depth 4), deduplicated on a map-based reference model; every (state, symbol) edge executed on a fresh real server through the RESP socket path and compared (reply, 75 read probes, full visible dump, in-package index/counter audit, internal-dump differential between paths to the same model state)",
   "text": "All sequences of the 60-symbol keyspace alphabet up to the depth bound are covered exhaustively: every reachable model state and every transition out of it is replayed against the implementation, so composition effects the suite never tries (FSET after EXPIRE on a renamed key, XX on a missing collection, JSET on a geometry with a deadline ...) are decided, not sampled. traces_validated_against_impl equals the number of transitions.",
